@@ -253,12 +253,13 @@ def failing_signer(ctx):
     st = {'runs': 0, 'failures_reported': 0, 'successes': 0}
     old = go.GNUPG
     try:
-        for exitst in (0, 1, 2):
+        for exitst in (0, 1, 2, 'KILL', 'TERM', 'SEGV'):        # (a name = the backend is ended by that signal after its output)
             for output in ('full', 'partial', 'none'):
                 script = os.path.join(td, f'gpg-{exitst}-{output}')
                 body = {'full': 'printf -- "-----BEGIN PGP SIGNED MESSAGE-----\\nHash: SHA512\\n\\n"; cat; printf -- "-----BEGIN PGP SIGNATURE-----\\n\\nFAKE\\n-----END PGP SIGNATURE-----\\n"',
                         'partial': 'printf -- "-----BEGIN PGP SIGNED MESSAGE-----\\nHash: SHA512\\n\\n"; cat', 'none': 'cat >/dev/null'}[output]
-                open(script, 'w').write('#!/bin/sh\ncase "$*" in *--clearsign*) ' + body + '; exit ' + str(exitst) + ';; *) exit 0;; esac\n')
+                how_to_end = ('exit ' + str(exitst)) if isinstance(exitst, int) else ('kill -' + exitst + ' $$; sleep 5')
+                open(script, 'w').write('#!/bin/sh\ncase "$*" in *--clearsign*) ' + body + '; ' + how_to_end + ';; *) exit 0;; esac\n')
                 os.chmod(script, 0o755)
                 tree = os.path.join(td, f'tree-{exitst}-{output}')
                 os.makedirs(tree)
